@@ -37,6 +37,11 @@ func getProfile(name string, seed int64) *Profile {
 		p.Name = "richreopen"
 		p.W = weights(map[string]int{"FindAll": 8, "FindById": 8, "Derived": 3})
 		p.Invalid = 0.02
+	case "algebra": // C16: algebraically equivalent criteria, literal kinds, reference operands
+		p.Ops = 40
+		p.Colls = 1
+		p.Name = "algebra"
+		p.Invalid = 0.02
 	case "ids": // C12
 		p.Colls = 3
 		p.MaxDocs = 6
@@ -99,6 +104,8 @@ func generate(p *Profile, seed int64) ([]E, *Universe) {
 		return g.HistoryBulk(bulkSizes[int(seed%int64(len(bulkSizes)))]), g.U
 	case p.Name == "bulkbig":
 		return g.HistoryBulk(bulkSizesBig[int(seed%int64(len(bulkSizesBig)))]), g.U
+	case p.Name == "algebra":
+		return g.HistoryAlgebra(), g.U
 	case p.Name == "io":
 		return g.HistoryIO(), g.U
 	case p.CloseOps || p.Name == "richreopen":
